@@ -44,7 +44,12 @@ class Timeout(BaseException):
     """an amoco call did not return within its CPU budget (observed like an exception)"""
 
 
+TIMEOUTS = [0]      # per worker process: calls that ran out of CPU budget
+MAX_TIMEOUTS = 3    # after that many the worker stops driving amoco (what it has is enough to fail the check)
+
+
 def _on_alarm(signum, frame):
+    TIMEOUTS[0] += 1
     raise Timeout()
 
 
@@ -275,7 +280,7 @@ def sweep_trace(tid, isa, src, buf, start, rng, nops=6):
     t = {"t": tid, "kind": "sweep", "isa": isa, "src": src, "start": start, "buf": list(buf), "exc": "",
          "seq": [], "ib": [], "blocks": [], "gb": {"ok": 0}, "ops": []}
     try:
-        with cpu_limit(20):
+        with cpu_limit(10):
             _sweep_body(t, z, cpu, loc, start, rng, nops)
     except (Exception, Timeout) as e:
         sig = exc_sig(e)
@@ -356,6 +361,8 @@ def sweep_job(args):
         else:
             starts = sorted(rng.sample(range(len(buf)), min(len(buf), int(all_starts))))
         for s in starts:
+            if TIMEOUTS[0] >= MAX_TIMEOUTS:
+                break
             tid += 1
             rs = "%s/%d/%d/%d" % (isa, seed, tid, s)
             t = sweep_trace(tid, isa, src, buf, s, random.Random(rs))
@@ -408,7 +415,7 @@ def run_history(tid, isa, cpu, buf, steps, dom, meta=None):
     for st in steps:
         r = {"op": st[0], "exc": "", "sig": []}
         try:
-            with cpu_limit(10):
+            with cpu_limit(5):
                 if not _history_step(st, r, z, g, nodes, cfg):
                     continue
         except (Exception, Timeout) as e:
@@ -457,6 +464,29 @@ def _history_step(st, r, z, g, nodes, cfg):
     return True
 
 
+PROBES = [
+    # (isa, buffer, block start addresses inserted in this order): canonical witnesses of the named deviations
+    ("x86", "9090c3", (0, 1)),                              # SplitSelfLoop: a block split in two
+    ("x86", "90c383c001c3", (2, 0)),                        # HistCopySlice: a short block right before a longer one
+    ("x86", "9090c3", (0, 0)),                              # EmptyOldEdge: a second node object for a mapped address
+    ("x86", "90909090", (2, 0)),                            # FirstBlockSwallow: the lowest block covers a mapped one
+    ("x86", "90909090", (0, 2, 3, 1)),                      # CutPathSwallow: a splitting block covers mapped ones
+    ("sparc", "10800002010000000100000001000000", (4, 0, 12)),   # AnonSplitEdge: split of a trimmed tail
+]
+
+
+def probe_trace():
+    """the canonical histories run on the tree under test; specs/CfgTrace.tla (kind "probe") decides from
+    them which of the named deviations of specs/CfgOps.tla this tree has"""
+    quiet()
+    hists = []
+    for isa, hx, starts in PROBES:
+        t = run_history(0, isa, cpu_of(isa), bytes.fromhex(hx), [("add", a) for a in starts], True)
+        if t["kind"] == "graph":
+            hists.append({"isa": isa, "steps": t["steps"]})
+    return {"t": 0, "kind": "probe", "hists": hists}
+
+
 def replay_chunk(args):
     """worker: replay TLC behaviours of a spool byte range on real graphs; returns graph traces.
     hosts: list of (isa, unit) eligible for this generator; which: 'one' (rotate) or 'all'."""
@@ -477,6 +507,9 @@ def replay_chunk(args):
     for idx, beh in enumerate(tlc.iter_spool_range(path, lo, hi)):
         if stride > 1 and (idx % stride) != offset:
             continue
+        if TIMEOUTS[0] >= MAX_TIMEOUTS:
+            stats["truncated"] = 1
+            break
         L, F, h = beh["L"], beh["F"], beh["h"]
         el = [x for x in H if x.can(L, F)]
         if not el:
@@ -531,6 +564,8 @@ def history_job(args):
     out = []
     tid = tid0
     for k in range(ntr):
+        if TIMEOUTS[0] >= MAX_TIMEOUTS:
+            break
         buf = b""
         if k % 3 == 2:
             sw = sample_windows(isa, rng, 1, ninstr * 3)
